@@ -150,6 +150,9 @@ func loadKnownFindings() (known []knownFinding, fixed []string) {
 	return
 }
 
+// noEvidence: set for partial (-only) and scratch (--noevidence) runs
+var noEvidence bool
+
 func cmdCheck(args []string) int {
 	fs := flag.NewFlagSet("check", flag.ExitOnError)
 	tier := fs.String("tier", "quick", "quick|thorough")
@@ -158,6 +161,7 @@ func cmdCheck(args []string) int {
 	keep := fs.Bool("keep", false, "keep SMT files")
 	verbose := fs.Bool("v", false, "verbose")
 	only := fs.String("only", "", "only functions matching this glob")
+	noEv := fs.Bool("noevidence", false, "do not write evidence/<id>.json (partial or scratch runs)")
 	if len(args) < 1 {
 		fmt.Fprintln(os.Stderr, "usage: govc check <Cxx>")
 		return 2
@@ -171,6 +175,7 @@ func cmdCheck(args []string) int {
 	if s := os.Getenv("VERIF_SEED"); s != "" {
 		seed, _ = strconv.Atoi(s)
 	}
+	noEvidence = *noEv || *only != ""
 	if *timeout == 0 {
 		*timeout = 30
 		if *tier == "thorough" {
@@ -426,9 +431,11 @@ func reportBroken(id, tier string, seed int, msg string, t0 time.Time) int {
 	ev := map[string]interface{}{"property_id": id, "tier": tier, "seed": seed, "level": "proof",
 		"coverage": map[string]interface{}{"obligations": 1, "discharged": 0, "checker_cmd": "govc check " + id, "trusted_base": []string{}, "evaluations": 1, "distinct_nontrivial": 0, "explanation": msg},
 		"wall_s": time.Since(t0).Seconds(), "violations": 1}
-	os.MkdirAll(filepath.Join(verifDir, "evidence"), 0o755)
-	js, _ = json.MarshalIndent(ev, "", " ")
-	os.WriteFile(filepath.Join(verifDir, "evidence", id+".json"), js, 0o644)
+	if !noEvidence {
+		os.MkdirAll(filepath.Join(verifDir, "evidence"), 0o755)
+		js, _ = json.MarshalIndent(ev, "", " ")
+		os.WriteFile(filepath.Join(verifDir, "evidence", id+".json"), js, 0o644)
+	}
 	return 1
 }
 
@@ -526,6 +533,9 @@ func writeEvidence(c *Ctx, id, tier string, seed int, reports []*fnReport, all, 
 	}
 	ev := map[string]interface{}{"property_id": id, "tier": tier, "seed": seed, "level": "proof", "coverage": cov,
 		"assumptions": assumptions, "wall_s": wall, "violations": len(violations)}
+	if noEvidence {
+		return
+	}
 	os.MkdirAll(filepath.Join(verifDir, "evidence"), 0o755)
 	js, _ := json.MarshalIndent(ev, "", " ")
 	os.WriteFile(filepath.Join(verifDir, "evidence", id+".json"), js, 0o644)
